@@ -330,6 +330,17 @@ def main(argv):
             res.pop('outcomes', None)
             print(json.dumps(_jsonable(res), indent=1)[:3000])
             print('%d violations, %.1fs' % (len(vs), time.time() - t0))
+            from . import findings as FM
+                
+            nk = 0
+            fresh = []
+            for v in vs:
+                if FM.match(argv[1].upper(), v.get('sig', {})) is not None:
+                    nk += 1
+                else:
+                    fresh.append(v)
+            print('%d known-finding cases, %d fresh' % (nk, len(fresh)))
+            vs = fresh
             seen = set()
             for v in vs:
                 k = json.dumps(_jsonable(v.get('sig')), sort_keys=True)
